@@ -1765,8 +1765,91 @@ func (ex *Exec) lockOp(st *State, fr *Frame, key string, recv *Val, instr ssa.In
 	}
 }
 
-func (ex *Exec) monitorEnter(st *State, fr *Frame, name string, recv *Val, instr ssa.Instruction) {}
-func (ex *Exec) monitorExit(st *State, fr *Frame, name string, recv *Val, instr ssa.Instruction)  {}
+// monitorOf returns the monitor declaration whose lock is the given field location.
+func (ex *Exec) monitorOf(recv *Val) (*MonitorSpec, *Term, types.Type) {
+	if recv.Loc == nil || recv.Loc.Kind != LHeap {
+		return nil, nil, nil
+	}
+	n, ok := types.Unalias(ex.env.resolve(recv.Loc.Base)).(*types.Named)
+	if !ok || n.Obj().Pkg() == nil {
+		return nil, nil, nil
+	}
+	m := ex.P.Specs.Monitors[n.Obj().Pkg().Path()+"."+n.Obj().Name()]
+	if m == nil || "."+m.Lock != recv.Loc.PathS {
+		return nil, nil, nil
+	}
+	return m, recv.Loc.Ref, recv.Loc.Base
+}
+
+// monitorEnter: Lock().  The first acquisition on a path starts from the
+// function's entry state (which already is an arbitrary state satisfying the
+// precondition).  Every later acquisition happens after other threads may
+// have run: the guarded state is havocked and the monitor invariant assumed.
+func (ex *Exec) monitorEnter(st *State, fr *Frame, name string, recv *Val, instr ssa.Instruction) {
+	m, self, base := ex.monitorOf(recv)
+	if m == nil {
+		return
+	}
+	st.locks[name]++
+	if st.locks[name] == 1 {
+		return
+	}
+	stru := ex.env.resolve(base).Underlying().(*types.Struct)
+	for _, g := range m.Guards {
+		if strings.Contains(g, ".") {
+			// every object of Type: field f
+			parts := strings.SplitN(g, ".", 2)
+			prefix := "F "
+			for key, cur := range st.heap {
+				if strings.HasPrefix(key, prefix) && strings.Contains(key, "."+parts[0]+" ."+parts[1]) {
+					st.heap[key] = ex.fresh("hv_mon", cur.Sort)
+				}
+			}
+			for key, cur := range ex.initHeap {
+				if _, done := st.heap[key]; !done && strings.HasPrefix(key, prefix) && strings.Contains(key, "."+parts[0]+" ."+parts[1]) {
+					st.heap[key] = ex.fresh("hv_mon", cur.Sort)
+				}
+			}
+			continue
+		}
+		for i := 0; i < stru.NumFields(); i++ {
+			f := stru.Field(i)
+			if f.Name() != g {
+				continue
+			}
+			ft := ex.env.resolve(f.Type())
+			if mt, ok := ft.Underlying().(*types.Map); ok {
+				mref := Select(ex.fieldArr(st, base, "."+g, SRef), self)
+				ex.havocMap(st, mt, mref)
+			} else {
+				ex.havocTargets(st, []*modTarget{{kind: "field", base: ex.env.resolve(base), path: "." + g, typ: ft, ref: self}})
+			}
+		}
+	}
+	// channels closed by other threads
+	key := "chan closed"
+	cl := ex.heapGet(st, key, ArraySort(SRef, SBool))
+	ncl := ex.fresh("hv_closed", cl.Sort)
+	x := Sym(fmt.Sprintf("c!mon%d", ex.nfresh), SRef)
+	st.assume(Forall([]*Term{x}, Implies(Select(cl, x), Select(ncl, x)), []*Term{Select(ncl, x)}))
+	st.heap[key] = ncl
+	if m.Inv != nil {
+		c := ex.frameCtx(st, fr)
+		c.names[m.RecvName] = &SV{V: scalar(self), T: types.NewPointer(base)}
+		st.assume(c.EvalBool(m.Inv.Expr))
+	}
+}
+
+// monitorExit: Unlock() - the monitor invariant must hold again.
+func (ex *Exec) monitorExit(st *State, fr *Frame, name string, recv *Val, instr ssa.Instruction) {
+	m, self, base := ex.monitorOf(recv)
+	if m == nil || m.Inv == nil {
+		return
+	}
+	c := ex.frameCtx(st, fr)
+	c.names[m.RecvName] = &SV{V: scalar(self), T: types.NewPointer(base)}
+	ex.check(st, "monitor-inv", ex.site("monitor-inv", instr), c.EvalBool(m.Inv.Expr), "monitor invariant at Unlock: "+m.Inv.Src, ex.pos(instr))
+}
 
 // tryDevirt resolves an interface call to the contract of a concrete method
 // when the function's contract declares `devirt T`: the receiver must then
